@@ -530,10 +530,22 @@ pub fn check_c07(scn: &Scenario, res: &RunResult) -> Vec<Violation> {
             route_unmentioned(cfg, c.m)
         } else if !flat.ordered(c.m) {
             let first = flat.of_method(c.m).into_iter().position(|p| accepts(p, c.x, c.y));
-            if first.is_some() || matcher_fault_applies(scn, &flat, c, first).is_some() {
-                continue;
+            // a pattern whose matcher registered no function can neither accept nor reject: when the
+            // search reaches it (no earlier pattern accepts) the call has no applicable pattern and
+            // must fail loudly; it is never handed to real code or to a later pattern
+            let broken = flat.of_method(c.m).into_iter().position(|p| !p.spec.has_matcher);
+            let unevaluable = matches!(broken, Some(b) if first.map_or(true, |f| b < f));
+            if unevaluable {
+                if matcher_fault_applies(scn, &flat, c, broken).is_some() {
+                    continue;
+                }
+                Route::MockPanic
+            } else {
+                if first.is_some() || matcher_fault_applies(scn, &flat, c, first).is_some() {
+                    continue;
+                }
+                route_unmatched(cfg, c.m)
             }
-            route_unmatched(cfg, c.m)
         } else {
             continue;
         };
@@ -644,12 +656,14 @@ pub fn check_verdict_text(flat: &Flat, snap: &Snap, msg: &str) -> Result<(), Str
     let (pats, methods) = unmet(flat, snap);
     let mentioned: Vec<M> = snap.counts.iter().map(|(m, _)| *m).collect();
     let mut pat_lines: std::collections::BTreeMap<u16, u32> = Default::default();
-    let mut method_lines: std::collections::BTreeMap<M, u32> = Default::default();
+    // several mocked methods can share one `Trait::method` path (generic instantiations): lines that
+    // name a method are counted per path
+    let mut path_lines: std::collections::BTreeMap<String, u32> = Default::default();
     for line in msg.split('\n') {
         if let Some(p) = flat.patterns.iter().find(|p| line.contains(pat_name(p.uid))) {
             *pat_lines.entry(p.uid).or_default() += 1;
         } else if let Some(m) = mentioned.iter().find(|m| line.contains(&m.path())) {
-            *method_lines.entry(*m).or_default() += 1;
+            *path_lines.entry(m.path()).or_default() += 1;
         } else {
             return Err(format!("line {line:?} names no expectation"));
         }
@@ -664,14 +678,18 @@ pub fn check_verdict_text(flat: &Flat, snap: &Snap, msg: &str) -> Result<(), Str
             return Err(format!("a line names pattern {}, whose expectation is met", pat_name(*uid)));
         }
     }
+    let mut want: std::collections::BTreeMap<String, u32> = Default::default();
     for m in &methods {
-        if method_lines.get(m).copied().unwrap_or(0) != 1 {
-            return Err(format!("never-matched method {} is named by {} lines (want exactly 1)", m.path(), method_lines.get(m).copied().unwrap_or(0)));
+        *want.entry(m.path()).or_default() += 1;
+    }
+    for (path, n) in &want {
+        if path_lines.get(path).copied().unwrap_or(0) != *n {
+            return Err(format!("{n} never-matched method(s) named {path} but {} line(s) name it (without naming a pattern)", path_lines.get(path).copied().unwrap_or(0)));
         }
     }
-    for (m, _) in &method_lines {
-        if !methods.contains(m) {
-            return Err(format!("a line names method {} (and no pattern), but that method was matched", m.path()));
+    for (path, n) in &path_lines {
+        if !want.contains_key(path) {
+            return Err(format!("{n} line(s) name method {path} (and no pattern), but every method of that name was matched"));
         }
     }
     Ok(())
